@@ -33,6 +33,29 @@ def _narrowing(frm, to):
     return False
 
 
+def _sign_flag_guard(body, c):
+    """the call is dominated by the `false` edge of is_sign_negative() or the `true` edge of is_sign_positive()"""
+    from r_panic import bool_source, edge_dominates, switch_edges
+    for sb in sorted(body.live_blocks):
+        t = body.blocks[sb]['term']
+        if t['k'] != 'switch':
+            continue
+        src = bool_source(body, t['discr'])
+        if src is None:
+            continue
+        tc, parity = src
+        nm = (tc.rdef or tc.callee or '')
+        want = {'rust_decimal::Decimal::is_sign_negative': 0, 'rust_decimal::Decimal::is_sign_positive': 1}.get(nm)
+        if want is None:
+            continue
+        listed = [v for v, _ in t['targets']]
+        for v, tb in switch_edges(body, sb):
+            tv = (1 if listed == [0] else 0 if listed == [1] else None) if v == 'otherwise' else (1 if v != 0 else 0)
+            if tv is not None and (tv ^ parity) == want and edge_dominates(body, sb, tb, c.bb):
+                return True
+    return False
+
+
 def _integral_guard(body, c):
     from r_panic import bool_source, edge_dominates, switch_edges
     from analysis import defuse, trace_operand, single_origin
@@ -121,6 +144,13 @@ def rule_nowrap(bodies, rule='NOWRAP'):
             nme = c.rdef or c.callee or ''
             if (LOSSY_CONV.search(nme) or LOSSY_CONV.search(c.callee or '')) and c.fn and any('rust_decimal::Decimal' in a for a in c.fn.get('args', []) + c.term['arg_tys']):
                 if getattr(body, 'orig_id', body.id) in UNDOCUMENTED_HANDLER_BODIES and re.search(r'::(round\w*|trunc\w*|floor|ceil|fract|rescale|normalize)$', nme):
+                    continue
+                if re.search(r'ToPrimitive>?::to_u(8|16|32|64|128|size)$', nme) and not _sign_flag_guard(body, c):
+                    # an unsigned target refuses every Decimal that carries the sign flag, a zero with the flag set (`-0`,
+                    # the negation of 0, Value::from(-0.0)) included: a guard on the numeric order (`val < 0`) does not cover it
+                    k = cnt.get(nme + '#sign', 0); cnt[nme + '#sign'] = k + 1
+                    obs.append(bad(rule, '%s|%s|unsigned:%s|#%d' % (rule, body.name, nme.split('::')[-1], k),
+                                   '%s refuses every Decimal carrying the sign flag (a negative zero included) and is not behind a test of that flag (is_sign_negative / is_sign_positive): a number whose value is the integer 0 is rejected' % nme, c.where(), body=body.name, bb=c.bb))
                     continue
                 if not _integral_guard(body, c):
                     k = cnt.get(nme, 0); cnt[nme] = k + 1
